@@ -68,6 +68,29 @@ fn main() {
 			let p = |i: usize| args[i].parse::<u64>().expect("number");
 			driver::worker_main(m.as_ref(), tier, p(4), p(5) as usize, p(6) as usize, p(7) as usize);
 		}
+		"classify" => {
+			// classify <file>: judge one input with the C06 monitors (all modes + .slpp reader)
+			std::process::exit(monitors::c06::classify(std::path::Path::new(&args[2])));
+		}
+		"dump-seeds" => {
+			// dump-seeds <dir>: write the C06 seed replays, and mutated variants as a fuzzing corpus
+			let dir = std::path::PathBuf::from(&args[2]);
+			std::fs::create_dir_all(&dir).expect("mkdir");
+			let mut n = 0;
+			for (i, s) in monitors::c06::seeds().iter().enumerate() {
+				std::fs::write(dir.join(format!("seed-{:02}.slp", i)), &s.bytes).unwrap();
+				n += 1;
+				for (j, op) in mutate::OPS.iter().enumerate() {
+					let mut rng = rng::Rng::derive(seed, (i * 100 + j) as u64);
+					let (b, _) = mutate::apply(op, &s.bytes, &s.model, &mut rng);
+					if b.len() <= 16384 {
+						std::fs::write(dir.join(format!("mut-{:02}-{:02}.slp", i, j)), &b).unwrap();
+						n += 1;
+					}
+				}
+			}
+			println!("wrote {} corpus files to {}", n, dir.display());
+		}
 		"lane" => {
 			// lane <name> <shard> <nshards> [c]
 			let p = |i: usize| args.get(i).and_then(|s| s.parse::<usize>().ok()).unwrap_or(0);
